@@ -29,6 +29,7 @@ import (
 	"github.com/ipni/go-libipni/dagsync"
 	"github.com/ipni/go-libipni/dagsync/ipnisync"
 	"github.com/ipni/go-libipni/ingest/schema"
+	"github.com/libp2p/go-libp2p/core/host"
 	"github.com/libp2p/go-libp2p/core/peer"
 	"github.com/multiformats/go-multiaddr"
 	"github.com/multiformats/go-multihash"
@@ -386,7 +387,7 @@ func (r Req) String() string {
 
 // Fault is what the server does instead of answering normally.
 type Fault struct {
-	Kind string // status, close, short-body, body, stall, cancel-caller
+	Kind string // status, close, short-body, body, declared, declared-stall, mutate, stall, cancel-caller
 	// Status for Kind "status"; Body for Kind "body".
 	Status int
 	Body   []byte
@@ -579,6 +580,19 @@ func (p *Pub) ServeHTTP(w http.ResponseWriter, r *http.Request) {
 		done(-5)
 		hdr := fmt.Sprintf("HTTP/1.1 200 OK\r\nContent-Length: %d\r\nContent-Type: application/json\r\n\r\n", fault.Status)
 		hijackClose(w, append([]byte(hdr), fault.Body...))
+	case "declared-stall":
+		// 200 with a declared Content-Length of fault.Status bytes, fault.Body
+		// sent, and then nothing more: the response stays open until the
+		// client gives up (its own time-out, or the caller's context)
+		done(-6)
+		w.Header().Set("Content-Length", fmt.Sprint(fault.Status))
+		w.Header().Set("Content-Type", "application/json")
+		w.WriteHeader(200)
+		w.Write(fault.Body)
+		if f, ok := w.(http.Flusher); ok {
+			f.Flush()
+		}
+		<-r.Context().Done()
 	case "mutate":
 		done(200)
 		w.WriteHeader(200)
@@ -649,8 +663,18 @@ type World struct {
 	CancelHookAt int
 	// CancelCaller cancels the context of the sync call in flight.
 	CancelCaller func()
+	// Host, when set before NewSubscriber, is the libp2p host the subscriber is
+	// created with (nil: no host, the HTTP-only configuration).
+	Host host.Host
+	// FailHookStop: the failing hook call also calls SetNextSyncCid(cid.Undef)
+	// after FailSync.
+	FailHookStop bool
 	// NoNextCid makes the hook not call SetNextSyncCid.
 	NoNextCid bool
+	// LibHook: the logging hook leaves the choice of the next segment's start
+	// to the library's MakeGeneralBlockHook instead of calling SetNextSyncCid
+	// itself. Set before the first sync.
+	LibHook bool
 }
 
 // NewWorld creates the network and installs it as http.DefaultTransport.
@@ -698,9 +722,25 @@ func (w *World) Hook(tag string) dagsync.BlockHookFunc {
 		}
 		if fail {
 			act.FailSync(errors.New("hook failure injected"))
+			if w.FailHookStop {
+				// "fail and stop": the documented way to say that there is no
+				// next segment, said after the failure was signalled
+				act.SetNextSyncCid(cid.Undef)
+			}
 			return
 		}
 		if noNext {
+			return
+		}
+		if w.LibHook {
+			// the continuation is decided by the library's own hook for
+			// segmented sync, given the same "previous block" function
+			dagsync.MakeGeneralBlockHook(func(c cid.Cid) (cid.Cid, error) {
+				if data, ok := w.Dst.Get(c); ok {
+					return LinkOf(data), nil
+				}
+				return cid.Undef, nil
+			})(p, c, act)
 			return
 		}
 		if data, ok := w.Dst.Get(c); ok {
@@ -729,7 +769,11 @@ func (w *World) ResetHooks() {
 // general hook.
 func (w *World) NewSubscriber(opts ...dagsync.Option) *dagsync.Subscriber {
 	all := append([]dagsync.Option{dagsync.BlockHook(w.Hook("general"))}, opts...)
-	s, err := dagsync.NewSubscriber(nil, w.Dst.LinkSystem(), all...)
+	var h host.Host // a nil interface, not a typed nil, when there is no host
+	if w.Host != nil {
+		h = w.Host
+	}
+	s, err := dagsync.NewSubscriber(h, w.Dst.LinkSystem(), all...)
 	if err != nil {
 		panic(err)
 	}
